@@ -17,8 +17,10 @@ type MerkleBlock struct {
 }
 
 // DecodeBinary implements the Serializable interface.
+// A Header set before decoding tells whether the header carries the state root
+// (see [block.Header.StateRootEnabled]).
 func (m *MerkleBlock) DecodeBinary(br *io.BinReader) {
-	m.Header = &block.Header{}
+	m.Header = &block.Header{StateRootEnabled: m.Header != nil && m.Header.StateRootEnabled}
 	m.Header.DecodeBinary(br)
 
 	cnt := br.ReadVarUint()
